@@ -62,6 +62,18 @@ Proof.
 Qed.
 Print Assumptions c36_tags_milestones.
 
+(** ... and [between] misses nothing: under the well-formedness of the task events,
+    every tag and milestone the history holds for a recorded task lies between its
+    start and its end, so the rows above are ALL the tags of the task and the first
+    milestone of every instant among ALL its milestones. *)
+From Akita Require Import C36.Proofs5.
+Theorem c36_notes_complete : forall a id p k w l s b e c,
+  wf_ops (a ++ OStart id p k w l s :: b ++ OEnd id e :: c) = true ->
+  tags_of id (a ++ OStart id p k w l s :: b ++ OEnd id e :: c) = tags_of id b /\
+  miles_of id (a ++ OStart id p k w l s :: b ++ OEnd id e :: c) = miles_of id b.
+Proof. exact notes_between. Qed.
+Print Assumptions c36_notes_complete.
+
 Theorem c36_milestone_per_instant : forall seen l, NoDup (map mile_time (first_per_instant seen l)).
 Proof. exact fpi_nodup. Qed.
 Print Assumptions c36_milestone_per_instant.
